@@ -131,6 +131,28 @@ class _FakeState:
         self.facts = facts
 
 
+_NAMED = None
+
+
+def rule_named_functions():
+    """identifiers that the rule modules mention: a static function whose name occurs there is analysed as a function of its own (its
+    calls stay opaque symbols that the rules read); every other static helper is transparent and is inlined at its call sites, so that
+    extracting a few lines into a helper - or inlining one - does not change what the rules see"""
+    global _NAMED
+    if _NAMED is None:
+        import glob
+        import os
+        here = os.path.dirname(os.path.dirname(os.path.abspath(__file__)))
+        txt = ''
+        for fn in glob.glob(os.path.join(here, 'rules', '*.py')) + glob.glob(os.path.join(here, 'xvlib', '*.py')):
+            try:
+                txt += open(fn).read()
+            except OSError:
+                pass
+        _NAMED = set(re.findall(r'[A-Za-z_]\w+', txt))
+    return _NAMED
+
+
 PURE_LIBM = {'sin', 'cos', 'tan', 'exp', 'log', 'sqrt', 'pow', 'fabs', 'asin', 'acos', 'atan', 'atan2', 'floor', 'ceil',
              'log10', 'sinh', 'cosh', 'fmax', 'fmin', 'abs'}
 ALLOCATORS = {'malloc', 'calloc', 'realloc', 'strdup', 'xrl_strdup', 'xrl_strndup', 'strndup', 'fopen'}
@@ -146,6 +168,9 @@ class Interp:
         self.counter = 0
         self.call_model = call_model
         self.on_subscript = on_subscript
+        self._inline_depth = 0
+        self.const_globals = None
+        self._inl_cache = {}
         self.on_deref = on_deref
         self.pure_pred = pure_pred
         self.on_math = on_math
@@ -738,6 +763,17 @@ class Interp:
             return node['name']
         if k == 'MemberExpr':
             base = self.lvalue_key(c[0], st) if c else 'this'
+            if node.get('arrow') and base.startswith('(&') and base.endswith(')'):
+                # p->f with p == &X is X.f: a local pointer that names an object is transparent
+                inner, depth, ok = base[2:-1], 0, True
+                for ch in inner:
+                    depth += ch in '([' 
+                    depth -= ch in ')]'
+                    if depth < 0:
+                        ok = False
+                        break
+                if ok and depth == 0 and inner.endswith(']'):      # the address of an array element (p = &a[i]; p->f is a[i].f)
+                    base = inner
             return '%s.%s' % (base, node['field'])
         if k == 'ArraySubscriptExpr':
             try:
@@ -773,6 +809,8 @@ class Interp:
     def _eval(self, node, st):
         k = node.get('k')
         c = node.get('c', [])
+        if k == 'ParenExpr' and c:          # only the Java dump keeps parentheses
+            return self.eval(c[0], st)
         if 'v' in node and k in ('BinaryOperator', 'UnaryOperator', 'ConditionalOperator') and node.get('op') not in ('=', '++', '--'):
             return Rat.const(node['v'])     # integer constant expression folded by clang
         if k == 'DeclRefExpr':
@@ -787,6 +825,8 @@ class Interp:
             key = node['name']
             if key in st.mem:
                 return st.mem[key]
+            if self.const_globals and key in self.const_globals:
+                return Rat.const(self.const_globals[key])      # Java: static final int constants (the C side gets them folded by clang)
             return Rat.sym(key)
         if k in ('IntegerLiteral', 'FloatingLiteral', 'CharacterLiteral'):
             if k == 'CharacterLiteral':
@@ -907,6 +947,10 @@ class Interp:
                 return st.mem[key]
             self.types.setdefault(key, node.get('T'))
             return Rat.sym(key)
+        if k == 'CallExpr' and node.get('callee') and self._inlinable(node.get('callee')):
+            r_ = self._eval_inlined_expr(node, st)
+            if r_ is not None:
+                return r_
         if k in ('CallExpr', 'CXXMemberCallExpr'):
             return self.call(node, st)
         if k == 'ConditionalOperator':
@@ -1161,6 +1205,26 @@ class Interp:
         if k == 'UnaryOperator' and node['op'] == '!':
             t, f = self.branch(c[0], states)
             return f, t
+        n0 = strip_casts(node)
+        if n0.get('k') == 'ParenExpr' and n0.get('c'):
+            return self.branch(n0['c'][0], states)
+        if n0.get('k') == 'CallExpr' and self._inlinable(n0.get('callee')):
+            # a transparent helper used as a condition: its paths become paths of the caller, each with its own return value
+            for st in states:
+                for o, rv in self._bind_and_run(n0, st):
+                    if o.status != 'run':
+                        T.append(o)            # cannot happen in C (no exceptions); kept so that no path is lost
+                        continue
+                    if rv is None:
+                        rv = Rat.sym(self.fresh(n0.get('callee')))
+                    of = o.fork()
+                    if self.assume(o, rv, '!=', True):
+                        o.conds.append((node, True))
+                        T.append(o)
+                    if self.assume(of, rv, '==', True):
+                        of.conds.append((node, False))
+                        F.append(of)
+            return T, F
         for st in states:
             try:
                 if k == 'BinaryOperator' and node['op'] in ('<', '<=', '>', '>=', '==', '!='):
@@ -1191,6 +1255,109 @@ class Interp:
                 F.append(st_f)
         return T, F
 
+    # ----------------------------------------------------------------------------------- transparent static helpers
+    def _inlinable(self, name):
+        if not name or self._inline_depth >= 3:
+            return None
+        cache = self._inl_cache
+        if name in cache:
+            return cache[name]
+        f = None
+        try:
+            cand = self.prog.func(name, unit=self.func.get('unit'), required=False)
+        except Exception:
+            cand = None
+        if cand is not None and cand.get('static') and cand.get('body') and cand is not self.func and cand['name'] != self.func['name'] and \
+                name not in rule_named_functions() and not any(x.get('k') == 'CallExpr' and x.get('callee') == name for x in walk(cand['body'])):
+            f = cand
+        cache[name] = f
+        return f
+
+    def _inline_site(self, node):
+        """(kind, call node, target) when the statement is `f(..);`, `x = f(..);`, `T x = f(..);` or `return f(..);` with f a transparent helper"""
+        k = node.get('k')
+        n0 = strip_casts(node) if k not in ('DeclStmt', 'ReturnStmt') else node
+        if k == 'ReturnStmt' and node.get('c'):
+            c0 = strip_casts(node['c'][0])
+            if c0.get('k') == 'CallExpr' and self._inlinable(c0.get('callee')):
+                return ('return', c0, None)
+        elif k == 'DeclStmt' and len(node.get('decls', [])) == 1 and isinstance(node['decls'][0], dict) and node['decls'][0].get('init') is not None:
+            c0 = strip_casts(node['decls'][0]['init'])
+            if c0.get('k') == 'CallExpr' and self._inlinable(c0.get('callee')):
+                return ('decl', c0, node['decls'][0])
+        elif n0.get('k') == 'CallExpr' and self._inlinable(n0.get('callee')):
+            return ('stmt', n0, None)
+        elif n0.get('k') == 'BinaryOperator' and n0.get('op') == '=':
+            c0 = strip_casts(n0['c'][1])
+            if c0.get('k') == 'CallExpr' and self._inlinable(c0.get('callee')):
+                return ('assign', c0, n0)
+        return None
+
+    def _bind_and_run(self, call, st):
+        """runs the helper's body on a state with its parameters bound to the argument values; returns [(state, return value or None)]"""
+        f = self._inlinable(call.get('callee'))
+        for prm, a in zip(f['params'], call.get('args', [])):
+            try:
+                st.env[prm['id']] = self.eval(a, st)
+            except NotInClass:
+                st.env[prm['id']] = Rat.sym(self.fresh(prm['name']))
+            self.types.setdefault(prm['name'], prm.get('T'))
+        self._inline_depth += 1
+        try:
+            outs = self.exec_stmt(f['body'], [st])
+        finally:
+            self._inline_depth -= 1
+        res = []
+        for o in outs:
+            rv = o.ret
+            if o.status in ('ret', 'run', 'end'):
+                o.status = 'run'
+                o.ret = None
+                o.ret_node = None
+            res.append((o, rv))
+        return res
+
+    def _exec_inlined(self, node, inl, live):
+        kind, call, tgt = inl
+        out = []
+        for st in live:
+            for o, rv in self._bind_and_run(call, st):
+                if o.status != 'run':
+                    out.append(o)
+                    continue
+                if rv is None:
+                    rv = Rat.sym(self.fresh(call.get('callee')))
+                if kind == 'return':
+                    o.ret = rv
+                    o.ret_node = node
+                    o.status = 'ret'
+                elif kind == 'decl':
+                    o.env[tgt['id']] = rv
+                    self.types.setdefault(tgt['name'], tgt.get('T'))
+                elif kind == 'assign':
+                    try:
+                        self.assign(tgt['c'][0], rv, o, tgt)
+                    except NotInClass:
+                        pass
+                out.append(o)
+        return out
+
+    def _eval_inlined_expr(self, node, st):
+        """a call of a transparent helper inside a larger expression: possible when the helper is straight-line code ending in one return"""
+        f = self._inlinable(node.get('callee'))
+        if f is None:
+            return None
+        body = f['body'].get('c', []) if f['body'].get('k') == 'CompoundStmt' else [f['body']]
+        if not body or body[-1].get('k') != 'ReturnStmt' or not body[-1].get('c'):
+            return None
+        for s_ in body[:-1]:
+            if s_.get('k') not in ('DeclStmt', 'BinaryOperator', 'CompoundAssignOperator', 'NullStmt'):
+                return None
+        res = self._bind_and_run(node, st)
+        if len(res) != 1 or res[0][0] is not st:
+            return None
+        return res[0][1]
+
     # ----------------------------------------------------------------------------------- statements
     def exec_stmt(self, node, states):
         if node is None:
@@ -1202,6 +1369,9 @@ class Interp:
         if len(states) > self.max_paths:
             raise Inconclusive('more than %d abstract paths in %s' % (self.max_paths, self.func['name']))
         k = node.get('k')
+        inl = self._inline_site(node)
+        if inl is not None:
+            return done + self._exec_inlined(node, inl, live)
         if k == 'CompoundStmt':
             cur = live
             for s in node.get('c', []):
@@ -1239,6 +1409,12 @@ class Interp:
                         st.ret = Rat.sym(self.fresh('ret'))
                 st.ret_node = node
                 st.status = 'ret'
+            return done + live
+        if k == 'ThrowStmt':                 # Java: the failing exit of a method (no value)
+            for st in live:
+                st.ret = None
+                st.ret_node = node
+                st.status = 'throw'
             return done + live
         if k == 'IfStmt':
             t, f = self.branch(node['cond'], live)
